@@ -153,6 +153,8 @@ def materialise(tree, shape, R, contents=None, pd=None):
                 s.append("file %s %s" % (hx(p), hx(data if data is not None else body(i, 0, mshape))))
             elif kind == "empty":
                 s.append("file %s x" % hx(p))
+            elif kind == "dangling":
+                s.append("symlink %s %s" % (hx(R + "/no/such/target"), hx(p)))
             else:
                 s.append("symlink %s %s" % (hx("/dev/null"), hx(p)))
             paths[p] = (i, 0)
@@ -207,6 +209,15 @@ def f4_expect(rec):
         if on:
             m[(tuple(codes(sec)), tuple(codes("U%d%d" % (l, r))))] = (49,)
     return m
+
+
+def f4_tree(main, drop):
+    """f4_class computed from a tree (single drop-in directory per layer): no main file that can be opened and the first
+    consulted drop-in has a namesake in a higher layer"""
+    if any(k not in ("absent", "dangling") for k in main):
+        return False
+    seq = [(l, n) for l in range(1, len(drop) + 1) for n in sorted(drop[l - 1]) if n not in (1, 7, 8)]
+    return bool(seq) and any(n == seq[0][1] for _, n in seq[1:])
 
 
 def tree_text(t):
@@ -469,10 +480,10 @@ def check_null_args(exe, verdict):
 POISON = "[poison\n"
 
 
-def fault_script(tree, shape, R, rej_files, late=True, entry="cfg"):
+def fault_script(tree, shape, R, rej_files, late=True, entry="cfg", pd=None):
     """Materialise with late-bound content: every regular file holds a poison line (a parse error)
     until the callback is called for it; rej_files: set of (l, r) the callback rejects."""
-    s, paths = materialise(tree, shape, R)
+    s, paths = materialise(tree, shape, R, pd=pd)
     pre = []
     mshape, dshape = tree["shp"][0], tree["shp"][1]
     if late:
@@ -512,7 +523,12 @@ def check_c06(exe, tier, seed, verdict):
     r1, recs1, _ = tree_export(1, [], 0, ["bb"])
     pool = [(x, "std") for x in recs if len(x["log"]) >= 1] + [(x, e) for x in recs2 if len(x["log"]) >= 1 for e in entries2]
     rnd.shuffle(pool)
-    pool = [(x, "readfilecb") for x in recs1] * 3 + pool
+    # two drop-in directories per layer (CONFIG_DIRS list / econf_set_conf_dirs): a rejection in the first directory must
+    # not be forgotten when the second one is read
+    r4, recs4, _ = tree_export(3, [3, 6], 4, ["bb"], nd=2)
+    pool2 = [(x, e) for x in recs4 if len(x["log"]) >= 2 and any(2 in row for row in x["pd"]) for e in ("config_dirs", "set_conf_dirs")]
+    rnd.shuffle(pool2)
+    pool = [(x, "readfilecb") for x in recs1] * 3 + pool2[:len(pool2) if tier == "thorough" else 120] + pool
     for x, ent in pool:
         K = [tuple(f) for f in x["log"]]
         choices = [set()] + [{f} for f in K]
@@ -528,7 +544,8 @@ def check_c06(exe, tier, seed, verdict):
         R = ROOT + "/c%d" % (i % 16)
         t = {"main": x["main"], "drop": x["drop"], "shp": x["shp"]}
         shape = Shape(ent, len(x["main"]))
-        s, pre, paths, rejp = fault_script(t, shape, R, rej)
+        pdmap = {(l, n): x["pd"][l - 1][n - 1] for l in range(1, len(x["drop"]) + 1) for n in x["drop"][l - 1]} if ent in ("config_dirs", "set_conf_dirs") else None
+        s, pre, paths, rejp = fault_script(t, shape, R, rej, pd=pdmap)
         sc = s + ["cbreset"] + pre
         # rejection by exact path (one) or by k-th call
         K = [tuple(f) for f in x["log"]]
@@ -566,7 +583,8 @@ def check_c06(exe, tier, seed, verdict):
         # trace: Begin, Callback*, End
         events.append({"e": "begin", "main": t["main"], "drop": t["drop"], "shp": t["shp"], "nlay": len(t["main"]),
                        "faults": [{"f": list(f), "x": ["reject"]} for f in sorted(rej)], "attrs": [],
-                       "flags": {"owner": False, "group": False, "nosym": False}})
+                       "flags": {"owner": False, "group": False, "nosym": False},
+                       "pd": x["pd"] if ent in ("config_dirs", "set_conf_dirs") else [[1] * 9 for _ in t["main"]]})
         for c in rd.get("cb", []):
             f = rp.get(norm(c["p"]), (0, 0))
             events.append({"e": "callback", "f": list(f), "verdict": c["v"], "data_ok": c["d"]})
@@ -925,18 +943,42 @@ def replay(pid, path):
 FOREIGN = 54321
 
 
-def scenario_script(i, x, ent, rej=(), attrs=None, flags=None, malformed=(), reset_reread=False, heap=False, use_cb=True):
-    """attrs: {(l,r): (own, grp, link)}; flags: dict(owner, group, nosym)."""
+def pd_map(x, shape, R="/"):
+    """drop-in directory (1 or 2) of every drop-in of an exported tree, for shapes with two drop-in directories"""
+    if not x.get("pd") or len(shape.layout(R)[2]) < 2:
+        return None
+    return {(l, n): x["pd"][l - 1][n - 1] for l in range(1, len(x["drop"]) + 1) for n in x["drop"][l - 1]}
+
+
+def pd_rows(x, ent):
+    return x["pd"] if (x.get("pd") and len(Shape(ent, len(x["main"])).layout("/")[2]) >= 2) else [[1] * 9 for _ in x["main"]]
+
+
+def with_dangling(x, dangling):
+    """the tree of x in which the main files named in `dangling` are symbolic links to nowhere"""
+    main = list(x["main"])
+    for l, r in dangling:
+        if r == 0:
+            main[l - 1] = "dangling"
+    return main
+
+
+def scenario_script(i, x, ent, rej=(), attrs=None, flags=None, malformed=(), reset_reread=False, heap=False, use_cb=True, dangling=()):
+    """attrs: {(l,r): (own, grp, link)}; flags: dict(owner, group, nosym); dangling: main files / drop-ins that are
+    symbolic links to nowhere."""
     R = ROOT + "/s%d" % (i % 16)
-    t = {"main": x["main"], "drop": x["drop"], "shp": x["shp"]}
+    t = {"main": with_dangling(x, dangling), "drop": x["drop"], "shp": x["shp"]}
     shape = Shape(ent, len(x["main"]))
     # a comment is pending when the malformed line is met (before the line and trailing on it): the error path has to
     # release the pending comment buffers as well
     contents = {f: "[broken  # trailing\nK=1\n" if (f[0] + f[1]) % 2 else "# pending comment\n# second line\n[broken\nK=1\n" for f in malformed}
-    s, paths = materialise(t, shape, R, contents=contents)
+    s, paths = materialise(t, shape, R, contents=contents, pd=pd_map(x, shape, R))
     attrs = attrs or {}
     extra = []
     for p, f in paths.items():
+        if f in [tuple(d) for d in dangling] and f[1] != 0:
+            extra += ["rm %s" % hx(p), "symlink %s %s" % (hx(R + "/no/such/target"), hx(p))]
+            continue
         own, grp, link = attrs.get(f, ("ok", "ok", False))
         kind = t["main"][f[0] - 1] if f[1] == 0 else "regular"
         if link and kind != "devnull":
@@ -971,10 +1013,10 @@ def scenario_script(i, x, ent, rej=(), attrs=None, flags=None, malformed=(), res
         else:
             c += ["dump %d" % h, "free %d" % h]
         return c
-    body_ = fl + one_read(1)
+    body_ = shape.pre(R) + fl + one_read(1)
     if reset_reread:
         body_ += ["resetsec", "cbreset"] + shape.call(20, R, cb=use_cb) + (["dump %d" % k for k in range(20, 28)] + ["free %d" % k for k in range(20, 28)] if ent.startswith("readhist") else ["dump 20", "free 20"])
-    body_ += ["resetsec", "cbreset"]
+    body_ += ["resetsec", "cbreset"] + shape.post()
     if heap:
         sc = s + extra + body_ + ["heap"] + body_ + ["heap"]
     else:
@@ -987,10 +1029,10 @@ def Kfull(x):
     return x["log"]
 
 
-def scenario_events(x, ent, out, paths, K, rej=(), attrs=None, flags=None, malformed=(), reset_reread=False, heap=False, use_cb=True):
+def scenario_events(x, ent, out, paths, K, rej=(), attrs=None, flags=None, malformed=(), reset_reread=False, heap=False, use_cb=True, dangling=()):
     root = out["root"]
     rp = {norm(k.replace(ROOT, root)): v for k, v in paths.items()}
-    t = {"main": x["main"], "drop": x["drop"], "shp": x["shp"]}
+    t = {"main": with_dangling(x, dangling), "drop": x["drop"], "shp": x["shp"]}
     ev = out["ev"]
     heaps = [e["bytes"] for e in ev if e["op"] == "heap"]
     heap_ok = True
@@ -1002,13 +1044,14 @@ def scenario_events(x, ent, out, paths, K, rej=(), attrs=None, flags=None, malfo
         ev = ev[first_heap + 1:]
     reads = [(j, e) for j, e in enumerate(ev) if e["op"].startswith("read")]
     events = []
-    faults = [{"f": list(f), "x": ["reject"]} for f in sorted(rej)] + [{"f": list(f), "x": ["malformed"]} for f in sorted(malformed)]
+    faults = [{"f": list(f), "x": ["reject"]} for f in sorted(rej)] + [{"f": list(f), "x": ["malformed"]} for f in sorted(malformed)] + \
+        [{"f": list(f), "x": ["dangling"]} for f in sorted(dangling) if f[1] != 0]
     alist = [{"f": list(f), "own": a[0], "grp": a[1], "link": bool(a[2])} for f, a in sorted((attrs or {}).items())]
     fl = {"owner": bool((flags or {}).get("owner")), "group": bool((flags or {}).get("group")), "nosym": bool((flags or {}).get("nosym"))}
     for n, (j, rd) in enumerate(reads):
         second = n == 1
         events.append({"e": "begin", "main": t["main"], "drop": t["drop"], "shp": t["shp"], "nlay": len(t["main"]),
-                       "faults": faults, "attrs": alist,
+                       "faults": faults, "attrs": alist, "pd": pd_rows(x, ent),
                        "flags": {"owner": False, "group": False, "nosym": False} if second else fl})
         if use_cb:
             for c in rd.get("cb", []):
@@ -1029,7 +1072,8 @@ def scenario_events(x, ent, out, paths, K, rej=(), attrs=None, flags=None, malfo
         else:
             got = listing_of_dump(nxt[0]) if nxt and nxt[0]["st"] else None
             events.append({"e": "end", "rc": rd["rc"], "has_obj": bool(rd.get("obj")) and not (rd["rc"] != "ECONF_SUCCESS" and rd.get("same")),
-                           "kind": "visible" if f4_class(x) else "cfg", "hist": [], "ents": sorted_ents(got or []), "heap_ok": heap_ok, "cbused": use_cb})
+                           "kind": "visible" if (f4_tree(t["main"], t["drop"]) if any(f[1] == 0 for f in dangling) else f4_class(x)) else "cfg",
+                           "hist": [], "ents": sorted_ents(got or []), "heap_ok": heap_ok, "cbused": use_cb})
     return events
 
 
